@@ -275,6 +275,41 @@ pub fn stages(ctx: &Ctx) -> Vec<Stage> {
         let cfg = Cfg { t0, t1: t0 + dt_max * rng.log10(1.0, 2.0), dt_min: dt_max * 1e-7, dt_max, tol };
         run_case(rep, solver, &prob, &cfg, DimMode::Dynamic, "bdf-tight");
     }));
+    // "end just past a step": the ending time is placed a sliver (1e-12 .. 1e-6 dt_max) beyond a time
+    // at which the solver would have produced a point anyway, so the clipped final step is far
+    // shorter than dt_min. It must simply be taken. (Round-3 seeded change C05-m9 turned exactly this
+    // coincidence, probability ~ dt_min/step per random solve, into MinimumTimeDeltaExceeded.)
+    let nsl = ctx.tier.pick(3_000, 60_000);
+    st.push(Stage::new("end-just-past-a-step", nsl, move |i, rep| {
+        let mut rng = Rng::for_case(seed, "c05-sliver", i);
+        let solver = Solver::ADAPTIVE[(i % 6) as usize];
+        let n = 1 + rng.below(3);
+        let fl = rng.below(4);
+        let prob = IvpProblem::gen(&mut rng, n, fl);
+        let mut cfg = gen_cfg(&mut rng, solver, prob.lip, (-8.0, -3.0), (0.8, 1.6));
+        cfg.dt_max *= rng.log10(0.0, 0.7);
+        cfg.dt_min = cfg.dt_max * rng.log10(-8.0, -6.0);
+        cfg.t1 = cfg.t0 + cfg.dt_max * rng.r(6.0, 40.0);
+        let probe = solve_real(solver, &cfg, &prob.y0, &prob, &Opts { budget: 2_000_000, max_items: 20_000, mode: DimMode::Dynamic, ..Default::default() });
+        rep.eval();
+        let pts = probe.ok_points();
+        if !probe.clean() || pts.len() < 4 {
+            rep.count("sliver/probe_not_usable", 1);
+            return;
+        }
+        let k = 1 + rng.below(pts.len() - 2);
+        let tk = pts[k].0;
+        let mut t1 = tk + cfg.dt_max * rng.log10(-12.0, -6.0);
+        if !(t1 > tk) {
+            t1 = f64::from_bits(tk.to_bits().wrapping_add(if tk > 0.0 { 1 } else { u64::MAX }));
+            if !(t1 > tk) {
+                t1 = tk + tk.abs() * 4.0 * f64::EPSILON + f64::MIN_POSITIVE;
+            }
+        }
+        let cfg2 = Cfg { t1, ..cfg.clone() };
+        rep.count(&format!("{}/sliver_cases", solver.name()), 1);
+        run_case(rep, solver, &prob, &cfg2, DimMode::Dynamic, "sliver");
+    }));
     let ns = ctx.tier.pick(1_200, 12_000);
     st.push(Stage::new("scaling", ns, move |i, rep| {
         let mut rng = Rng::for_case(seed, "c05-scaling", i);
